@@ -93,21 +93,21 @@ contract(SMOOTH, params=dict(x=Seq(Real), y=Seq(Real), s=Opt(Real)), returns=Obj
 
 @requires(SMOOTH)
 def smooth_pre(x, y, s):
-    return len(x) >= 5 and len(y) == len(x) and strictly_increasing(x)
+    return len(x) >= 5 and len(y) == len(x) and strictly_increasing(x) and (True if s is None else s >= 0)
 
 
 def same_seq(a, b):
     return len(a) == len(b) and forall(range(len(a)), lambda i: a[i] == b[i])
 
 
-@ensures(SMOOTH)
+@ensures(SMOOTH, static_only=True)
 def smooth_forwards(x, y, s, result):
     """x, y and s reach splrep unchanged; s omitted -> len(y) * std(y)**2; s = 0 is NOT replaced"""
     return (same_seq(result.src_x, x) and same_seq(result.src_y, y)
             and eq(result.s, (len(y) * (std_of(y) * std_of(y))) if s is None else s))
 
 
-@ensures(SMOOTH)
+@ensures(SMOOTH, static_only=True)
 def smooth_interpolates_for_zero(x, y, s, result):
     """with s == 0 the spline passes through every sample (assumed FITPACK contract)"""
     return implies(s is not None and s == 0, forall(range(len(x)), lambda k: result.fn(x[k]) == y[k]))
@@ -121,7 +121,7 @@ contract(NOISE, params=dict(a=Seq(Real, kind='arraylike'), snr=Union(NoneT, Real
 
 @requires(NOISE)
 def noise_pre(a, snr, snr_in_db, std):
-    return (len(a) >= 1
+    return (len(a) >= 1 and (std >= 0 if snr is None else True)
             # a signal-to-noise ratio in linear scale is a positive number (division by it, square root of the quotient)
             and (True if snr is None or snr_in_db else
                  (forall(range(len(snr)), lambda i: snr[i] > 0) if is_seq(snr) else snr > 0))
